@@ -1,0 +1,8 @@
+//go:build !verif
+
+package updater
+
+import "time"
+
+// verifBackoff never fires in normal builds: the retry backoff is the documented one.
+func verifBackoff(int) <-chan time.Time { return nil }
